@@ -231,6 +231,14 @@ def bounded(tier, seed):
                     failures.append({"inputs": {"kind": "cookie", "name": name, "value": value, "iface": iface}, "violated": v})
                 elif len(samples) < 3 and ";" in value and "\n" in value:
                     samples.append({"cookie": (name, value), "iface": iface})
+        # names / values that LOOK like a finished quoted-string (wrapped in double quotes, inner quotes escaped)
+        for value in ('"abc\r\nSet-Cookie: admin=1"', '"abc; domain=evil.example"', '"\0"', '"a\\"b\n"', '"x,y"', '"\\012"', '""', '"'):
+            for name in ("sid", '"n\r\n"'):
+                evals += 1
+                v = case_cookie(name, value, iface)
+                distinct.add((iface, "cookie-quoted", name, value))
+                if v and len(failures) < 10:
+                    failures.append({"inputs": {"kind": "cookie", "name": name, "value": value, "iface": iface}, "violated": v})
         for url in ["/a"] + ["/p" + s for s in ss] + ["http://h/\r\nSet-Cookie: a=b", "/\r\n\r\n<html>"]:
             evals += 1
             v = case_redirect(url, iface)
